@@ -35,8 +35,14 @@ fn ref_cmp(a: &[u32], b: &[u32]) -> Option<Ordering> {
 }
 
 fn laws<const LA: usize, const LB: usize>() {
-    let (a, ca) = any_clock::<LA>();
-    let (b, cb) = any_clock::<LB>();
+    let a: [u32; LA] = kani::any();
+    let b: [u32; LB] = kani::any();
+    laws_on(a, b);
+}
+
+fn laws_on<const LA: usize, const LB: usize>(a: [u32; LA], b: [u32; LB]) {
+    let ca = VectorClock::from(&a);
+    let cb = VectorClock::from(&b);
     // partial_cmp is the product order (with the length rule)
     let got = ca.partial_cmp(&cb);
     assert!(got == ref_cmp(&a, &b), "C15: partial_cmp differs from the product order");
@@ -80,6 +86,25 @@ crate::harness! {
 crate::harness! {
     #[kani::unwind(6)]
     fn c15_laws_4_4() { laws::<4, 4>(); }
+}
+
+// Concrete probes of the same laws (zero tails, equal clocks, all-zero clocks, crossing entries): on a tree where a
+// law fails, the symbolic instances can exhaust the solver's memory (a length that depends on the entries makes
+// SmallVec's extend symbolic-sized); these finish in seconds and pin the failure down.
+crate::harness! {
+    #[kani::unwind(6)]
+    fn c15_laws_concrete_probes() {
+        laws_on([1, 2], [1, 1, 0]);
+        laws_on([0, 0], [0, 0, 0]);
+        laws_on([2, 1], [1, 2, 3]);
+        laws_on([1, 1, 0], [1, 2]);
+        laws_on([0, 0, 1], [5, 5]);
+        laws_on([1, 0, 0], [0, 1, 0]);
+        laws_on([1, 2, 3], [1, 2, 3]);
+        laws_on([7], [0, 0, 0]);
+        laws_on([0, 0, 0], [7]);
+        laws_on([u32::MAX, 0], [0, u32::MAX]);
+    }
 }
 
 /// Transitivity and least-upper-bound need three clocks.
